@@ -15,6 +15,7 @@ import (
 	"os"
 	"os/exec"
 	"path/filepath"
+	"regexp"
 	"sort"
 	"strings"
 	"sync"
@@ -46,6 +47,7 @@ type TASpec struct {
 	CheckArgFiles    bool     `json:"check_arg_files"`
 	WantNodes        bool     `json:"want_nodes"`
 	RestartAfterFail bool     `json:"restart_after_fail"`
+	PostProcessCrash int      `json:"postprocess_crash"`
 	TimeoutS         int      `json:"timeout_s"`
 }
 
@@ -96,6 +98,8 @@ func (f *Fault) UnmarshalJSON(b []byte) error {
 	f.JobKey, f.Kind, f.Repeat = m.Job, m.Kind, m.Repeat
 	return nil
 }
+
+var reUniqDir = regexp.MustCompile(`-u[0-9a-f]{10}`)
 
 func fileSum(p string) string {
 	b, err := os.ReadFile(p)
@@ -159,7 +163,7 @@ func runSpec(spec *TASpec, scratch string) *TAResult {
 	opts := TAOpts{VdrMode: spec.VdrMode, MroPaths: spec.MroPaths, CrashSurvive: spec.CrashSurvive,
 		Faults: spec.Faults, InlineFinish: spec.InlineFinish, StartSeparate: spec.StartSeparate,
 		StepBias: spec.StepBias, Adversarial: spec.Adversarial, ExtraFiles: spec.ExtraFiles,
-		FullReset: spec.FullReset, RestartAfterFail: spec.RestartAfterFail}
+		FullReset: spec.FullReset, RestartAfterFail: spec.RestartAfterFail, PostProcessCrash: spec.PostProcessCrash}
 	if len(spec.CrashAt) > 0 {
 		opts.CrashAt = map[int]bool{}
 		for _, c := range spec.CrashAt {
@@ -218,7 +222,9 @@ func runSpec(spec *TASpec, scratch string) *TAResult {
 		}()
 	}
 	if outs, err := run.TopOuts(); err == nil {
-		res.TopOuts = outs
+		// make runs comparable: pipestance directory and attempt uniquifiers differ per run
+		o := strings.ReplaceAll(string(outs), run.PsDir, "$PS")
+		res.TopOuts = json.RawMessage(reUniqDir.ReplaceAllString(o, "-uX"))
 	}
 	if _, err := os.Lstat(filepath.Join(run.PsDir, "_lock")); err == nil {
 		res.LockLeft = true
